@@ -33,7 +33,7 @@ ASSUME = ["seeded programs need not be valid Fortran otherwise", "message wordin
 def plan(tier):
     if tier == "quick":
         return {"ncases": 240, "nshards": 16, "budget_s": 75, "floor": 1000, "stall_s": 60}
-    return {"ncases": 12000, "nshards": 16, "budget_s": 1800, "floor": 40000, "stall_s": 300}
+    return {"ncases": 12000, "nshards": 16, "budget_s": 1800, "floor": 20000, "stall_s": 300}
 
 
 VALID_EXTRA = [
